@@ -242,11 +242,19 @@ def _ext(bs, code, aa):
     return x.tolist()
 
 
-def endian_relations(bs, acc, bits):
-    """xle == xbe(byte-reversed); xne == x{sys.byteorder}; for x in uint, int, float, bfloat."""
+def endian_relations(bs, acc, bits, view=None):
+    """xle == xbe(byte-reversed); xne == x{sys.byteorder}; for x in uint, int, float, bfloat.
+    view = (route name, ctx): the two objects are built through a view route (window onto a longer file / buffer) instead of Bits(bin=...)."""
     n = len(bits)
     rev = ''.join(reversed([bits[i:i + 8] for i in range(0, n, 8)]))
-    o, r = bs.Bits(bin=bits), bs.Bits(bin=rev)
+    if view:
+        from .. import routes as RT
+        cls = ('Bits', 'ConstBitStream')[n // 8 % 2]
+        o, r = RT.build(bs, view[0], cls, bits, view[1]), RT.build(bs, view[0], cls, rev, view[1])
+        osrc, rsrc, prelude = RT.source(view[0], cls, bits), RT.source(view[0], cls, rev), RT.SNIPPET_PRELUDE
+    else:
+        o, r = bs.Bits(bin=bits), bs.Bits(bin=rev)
+        osrc, rsrc, prelude = f"bitstring.Bits(bin={bits!r})", f"bitstring.Bits(bin={rev!r})", "import bitstring"
     kinds = ['uint', 'int'] + (['float'] if n in (16, 32, 64) else []) + (['bfloat'] if n == 16 else [])
     for x in kinds:
         be = x + 'be'
@@ -264,8 +272,8 @@ def endian_relations(bs, acc, bits):
                 v -= 1 << n
             good = a[1] == v
         if not good:
-            acc.violation('endian', 'value', dict(kind=x, bits=bits if n <= 64 else f'{n} bits', group=x),
-                          '\n'.join(["import bitstring, sys", f"o, r = bitstring.Bits(bin={bits!r}), bitstring.Bits(bin={rev!r})", "eq = lambda p, q: (p != p and q != q) or p == q",
+            acc.violation('endian', 'value', dict(kind=x, bits=bits if n <= 64 else f'{n} bits', route=view[0] if view else None, group=x + (view[0] if view else '')),
+                          '\n'.join([prelude, "import sys", f"o, r = {osrc}, {rsrc}", "eq = lambda p, q: (p != p and q != q) or p == q",
                                      f"assert eq(o.{le}, r.{be}) and eq(o.{ne}, getattr(o, '{x}' + ('le' if sys.byteorder == 'little' else 'be')))"]), None, (a, b, c, d))
         # creation side: building le from the value gives the byte-reversed be encoding
         if a[0] == 'ok' and not (isinstance(a[1], float) and a[1] != a[1]):
@@ -286,10 +294,18 @@ def endian16(bs, acc, lo, hi):
 
 
 def endian_edge(bs, acc, seed):
-    for L in (8, 24, 32, 40, 64, 128):
-        for d in families.edge(L, seed, full=True):
-            endian_relations(bs, acc, d)
-            acc.state(('endian', L, d[:16]))
+    from .. import routes as RT
+    ctx = RT.Ctx()
+    try:
+        for L in (8, 16, 24, 32, 40, 64, 128):
+            for d in families.edge(L, seed, full=True):
+                endian_relations(bs, acc, d)
+                acc.state(('endian', L, d[:16]))
+                # the same relations on windows onto longer sources: the bytes beyond the window must play no part
+                for r in ('file_len', 'file_off3_len', 'bytes_off3', 'bytesio', 'stepslice'):
+                    endian_relations(bs, acc, d, view=(r, ctx))
+    finally:
+        ctx.close()
 
 
 def byteswaps(bs, acc, seed):
